@@ -139,4 +139,13 @@ var pinned = []Case{
 		{Op: "setProto", Obj: "T", Val: "P1", Iss: "object"},
 		{Op: "set", Obj: "T", Key: "7", Num: true, Val: "sb", Iss: "reflect"},
 	}},
+	// -27 a rejected length truncation repeated: the non-configurable element must survive every attempt (seeded
+	// mutation C04-array-length-propcount: the rejected attempt wore a counter down, the second one took the fast path)
+	{Mode: "seq", Kind: "dense", Keys: []string{"1", "length", "a"}, Twin: "issuer", TSeed: 1, Ops: []Op{
+		{Op: "define", Obj: "T", Key: "1", Mask: 1 | 2 | 16 | 32, Val: "sa", Flags: 2, Iss: "object"},
+		{Op: "set", Obj: "T", Key: "length", Val: "0", Iss: "reflect"},
+		{Op: "set", Obj: "T", Key: "length", Val: "0", Iss: "reflect", Rep: true},
+		{Op: "define", Obj: "T", Key: "length", Mask: 1, Val: "0", Iss: "reflect", Rep: true},
+		{Op: "set", Obj: "T", Key: "length", Val: "0", Iss: "jss", Rep: true},
+	}},
 }
